@@ -27,35 +27,46 @@ package memtable
 //@   ensures[C08] maxSeqNum >= old(maxSeqNum)
 //@   ensures[C08] entry.SequenceNumber <= opts.MaxSequenceNumber ==> maxSeqNum >= entry.SequenceNumber
 
-// ---- C01/C18: abstract view of one memtable: has[k] = some entry with key k exists; del[k] = the entry with the
-// highest sequence number (ties: the later insert) is a deletion marker; val[k] = that entry's value bytes;
-// valnil[k] = that value is nil.  (The skiplist contracts of C18 tie Find to this view.)
-//@ ghost field (*MemTable) has set[bstr]
-//@ ghost field (*MemTable) del set[bstr]
-//@ ghost field (*MemTable) val map[bstr]bstr
+// ---- C01/C18: abstract view of one memtable = the view of its skiplist: has[k] = some entry with key k exists;
+// del[k] = the entry with the highest sequence number (ties: the later insert) is a deletion marker; val[k] = that
+// entry's value bytes.  SkipList.Find is tied to this view by its contract (C18).
+//@ ghost field (*SkipList) has set[bstr]
+//@ ghost field (*SkipList) del set[bstr]
+//@ ghost field (*SkipList) val map[bstr]bstr
+//@ predicate MTHas(m *MemTable, k bstr) = m.skipList.has[k]
+//@ predicate MTDel(m *MemTable, k bstr) = m.skipList.del[k]
+//@ pure func MTVal(m *MemTable, k bstr) bstr = m.skipList.val[k]
+
+// Find returns the newest entry of the key in terms of the view (view-level contract; its proof from the list
+// structure is the goal of C18).  Entries satisfy: a value entry has a non-nil value (newEntry).
+//@ func (*SkipList).Find
+//@   trusted assumed view-level contract (goal of C18: proof from the skiplist representation invariant)
+//@   modifies nothing
+//@   ensures (result == nil) == !s.has[bstr(key)]
+//@   ensures result != nil ==> (result.valueType == TypeDeletion) == s.del[bstr(key)] && bstr(result.value) == s.val[bstr(key)] && (result.valueType != TypeDeletion ==> result.value != nil)
 
 // Get maps the newest entry to (value, found): a deletion marker reads as (nil, true), a value never reads as nil.
 //@ func (*MemTable).Get
+//@   requires m.skipList != nil && lockstate(m.mu) == 0
 //@   modifies nothing
-//@   ensures[C01,C18] result1 == m.has[bstr(key)]
-//@   ensures[C01,C18] result1 ==> (result0 == nil) == m.del[bstr(key)]
-//@   ensures[C01,C18] result1 && !m.del[bstr(key)] ==> bstr(result0) == m.val[bstr(key)]
+//@   ensures[C01,C18] result1 == MTHas(m, bstr(key))
+//@   ensures[C01,C18] result1 ==> (result0 == nil) == MTDel(m, bstr(key))
+//@   ensures[C01,C18] result1 && !MTDel(m, bstr(key)) ==> bstr(result0) == MTVal(m, bstr(key))
 //@   ensures[C01,C18] !result1 ==> result0 == nil
-//@   trusted view of SkipList.Find: discharged only once the skiplist contracts (C18) are in place
 
 // Newest layer first: the active table, then the immutable tables from the newest (last) to the oldest (first);
 // the first layer that holds the key decides, also when it holds a deletion marker.
 //@ func (*MemTablePool).Get
-//@   requires p.active != nil && lockstate(p.mu) == 0 && lockstate(p.active.mu) == 0 && (forall i int :: 0 <= i && i < len(p.immutables) ==> p.immutables[i] != nil && lockstate(p.immutables[i].mu) == 0)
+//@   requires p.active != nil && lockstate(p.mu) == 0 && lockstate(p.active.mu) == 0 && p.active.skipList != nil && (forall i int :: 0 <= i && i < len(p.immutables) ==> p.immutables[i] != nil && p.immutables[i].skipList != nil && lockstate(p.immutables[i].mu) == 0)
 //@   modifies nothing
-//@   ensures[C01] result1 ==> p.active.has[bstr(key)] || (exists i int :: 0 <= i && i < len(p.immutables) && p.immutables[i].has[bstr(key)])
-//@   ensures[C01] !result1 ==> !p.active.has[bstr(key)] && (forall i int :: 0 <= i && i < len(p.immutables) ==> !p.immutables[i].has[bstr(key)])
-//@   ensures[C01] p.active.has[bstr(key)] ==> result1 && (result0 == nil) == p.active.del[bstr(key)] && (!p.active.del[bstr(key)] ==> bstr(result0) == p.active.val[bstr(key)])
-//@   ensures[C01] !p.active.has[bstr(key)] ==> (forall i int :: 0 <= i && i < len(p.immutables) && p.immutables[i].has[bstr(key)] && (forall j int :: i < j && j < len(p.immutables) ==> !p.immutables[j].has[bstr(key)]) ==> result1 && (result0 == nil) == p.immutables[i].del[bstr(key)] && (!p.immutables[i].del[bstr(key)] ==> bstr(result0) == p.immutables[i].val[bstr(key)]))
+//@   ensures[C01] result1 ==> MTHas(p.active, bstr(key)) || (exists i int :: 0 <= i && i < len(p.immutables) && MTHas(p.immutables[i], bstr(key)))
+//@   ensures[C01] !result1 ==> !MTHas(p.active, bstr(key)) && (forall i int :: 0 <= i && i < len(p.immutables) ==> !MTHas(p.immutables[i], bstr(key)))
+//@   ensures[C01] MTHas(p.active, bstr(key)) ==> result1 && (result0 == nil) == MTDel(p.active, bstr(key)) && (!MTDel(p.active, bstr(key)) ==> bstr(result0) == MTVal(p.active, bstr(key)))
+//@   ensures[C01] !MTHas(p.active, bstr(key)) ==> (forall i int :: 0 <= i && i < len(p.immutables) && MTHas(p.immutables[i], bstr(key)) && (forall j int :: i < j && j < len(p.immutables) ==> !MTHas(p.immutables[j], bstr(key))) ==> result1 && (result0 == nil) == MTDel(p.immutables[i], bstr(key)) && (!MTDel(p.immutables[i], bstr(key)) ==> bstr(result0) == MTVal(p.immutables[i], bstr(key))))
 //@ loop (*MemTablePool).Get#1
-//@   invariant[C01] 0 - 1 <= i && i < len(p.immutables) && !p.active.has[bstr(key)] && p.active != nil
-//@   invariant[C01] forall j int :: i < j && j < len(p.immutables) ==> !p.immutables[j].has[bstr(key)]
-//@   invariant[C01] forall j int :: 0 <= j && j < len(p.immutables) ==> p.immutables[j] != nil && lockstate(p.immutables[j].mu) == 0
+//@   invariant[C01] 0 - 1 <= i && i < len(p.immutables) && !MTHas(p.active, bstr(key)) && p.active != nil
+//@   invariant[C01] forall j int :: i < j && j < len(p.immutables) ==> !MTHas(p.immutables[j], bstr(key))
+//@   invariant[C01] forall j int :: 0 <= j && j < len(p.immutables) ==> p.immutables[j] != nil && p.immutables[j].skipList != nil && lockstate(p.immutables[j].mu) == 0
 
 // Entries capture key and value at call time; a value entry never carries a nil value (nil is the deletion marker).
 //@ func newEntry
